@@ -849,7 +849,6 @@ def _empty_string():
 @_formats('"$default"? -> "$default"')
 @_formats("delimited-argument-list? -> delimited-argument-list")
 @_formats("doc? -> doc")
-@_formats("doc -> Documentation")
 @_formats("enum-value-body? -> enum-value-body")
 @_formats('equality-operator -> "=="')
 @_formats("equality-or-greater-expression-right -> equality-expression-right")
@@ -901,6 +900,13 @@ def _empty_string():
 @_formats("unconditional-struct-field -> virtual-field")
 def _identity(x):
     return x
+
+
+@_formats("doc -> Documentation")
+def _doc(documentation):
+    # Trailing whitespace is part of the Documentation token, but must not count
+    # towards column widths: it is stripped when the row is rendered.
+    return documentation.rstrip()
 
 
 @_formats("argument-list -> expression comma-then-expression*")
